@@ -1128,7 +1128,7 @@ def _lin(t):
         b, k = _lin(t[2])
         if b is not None:
             return b, k + (t[3][1] if t[1] == "+" else -t[3][1])
-    if t[0] in ("call", "p", "sub", "attr", "iter") and not is_c(t):
+    if t[0] in ("call", "p", "sub", "attr", "iter", "bin", "g", "len") and not is_c(t):
         return t, 0
     return None, 0
 
